@@ -185,7 +185,8 @@ var sqlstates = []string{"42601", "XX000", "23505", "0A000", "XXUUU", "57014", "
 var severities = []string{"ERROR", "FATAL", "PANIC", "WARNING", "NOTICE", ""}
 
 func genText(r *rand.Rand) string {
-	words := []string{"boom", "x", "", "relation does not exist", "é", "a b", "100%", "%s%d", "line\nbreak"}
+	words := []string{"boom", "x", "", "relation does not exist", "é", "a b", "100%", "%s%d", "line\nbreak",
+		"a_constraint_or_message_text_of_more_than_sixty_three_bytes_0123456789_abcdefghij"}
 	return words[r.Intn(len(words))]
 }
 
